@@ -314,6 +314,9 @@ pub struct TermState {
     /// the terminal applies what the library writes only when the library flushes (like
     /// `Term::buffered_stderr()`); output written by others (a suspend closure) is not held back
     pub buffered: bool,
+    /// every terminal call is a scheduling point (terminal I/O is where a thread is descheduled
+    /// while it holds the locks of the draw it is in the middle of)
+    pub yield_in_calls: bool,
     pub pending_bytes: String,
     pub n_calls: u64,
     pub n_queries: u64,
@@ -321,6 +324,8 @@ pub struct TermState {
     pub failed_calls: u64,
     /// failed calls per simulated thread (the thread that made the call)
     pub failed_by_tid: std::collections::BTreeMap<usize, u64>,
+    /// indices of the flush calls beyond the first 250 calls (C18 enumerates those as well)
+    pub late_flush_idx: Vec<u64>,
     pub fault: FaultPlan,
     /// index of the harness-level API call in progress (set by the driver)
     pub cur_op: u64,
@@ -360,12 +365,14 @@ impl SimTerm {
                 calls: vec![],
                 keep_calls: false,
                 buffered: false,
+                yield_in_calls: false,
                 pending_bytes: String::new(),
                 n_calls: 0,
                 n_queries: 0,
                 flushes: 0,
                 failed_calls: 0,
                 failed_by_tid: Default::default(),
+                late_flush_idx: vec![],
                 fault: FaultPlan::default(),
                 cur_op: 0,
                 tab_seen: None,
@@ -557,6 +564,9 @@ impl SimTerm {
     }
 
     fn call(&self, kind: CallKind) -> io::Result<()> {
+        if self.lock().yield_in_calls {
+            verif_simrt::sched::yield_now();
+        }
         let mut slow = 0u64;
         let clock = verif_simrt::sched::clock_ns();
         let res = {
@@ -579,6 +589,9 @@ impl SimTerm {
                 }
             }
             s.calls_hash = h;
+            if idx >= 250 && matches!(kind, CallKind::Flush) {
+                s.late_flush_idx.push(idx);
+            }
             if s.keep_calls {
                 let op = s.cur_op;
                 s.calls.push(Call {
